@@ -83,6 +83,36 @@ CHECKS["C16"] = dict(
     design="4 (C16)",
     note="element values are immutable in the model; template records take nil/zero values (IsValueEmpty).")
 
+CHECKS["C02"] = dict(
+    engine="exp",
+    technique="Lean 4 proof (parse-after-encode theorems at message, template-record and data-record layer against an independent RFC 7011 parser) + socket-level differential correspondence",
+    text="Proved: wire_header (CreateIPFIXMsg output parses as version 10, header length = bytes sent, given time/sequence/domain, one set whose "
+         "length covers the rest, set id as prepared), wire_specs / wire_template (field specifiers parse back as (id, length, enterprise number "
+         "exactly for enterprise elements) in order, for element ids < 32768 - the stated guard, with an example outside it), wire_data (the records "
+         "of a data set are read back as exactly the values handed over: composition of C15 decode_encode over records and sets, any record "
+         "count). The bytes a real ExportingProcess writes to an in-memory net.Conn are compared with the model's bytes and parsed by the "
+         "independent Lean parser (Ipfix.ExpSpec) on every send.",
+    design="4 (C02)",
+    note="the connection is an in-memory net.Conn injected through the overlay constructor VerifNewExporter; loopback sockets are exercised by C01.")
+CHECKS["C08"] = dict(
+    engine="exp",
+    technique="Lean 4 proof (sequence law by induction over sessions, arithmetic mod 2^32) + differential correspondence with sessions crossing the wrap",
+    text="Proved: send_ok (a successful SendSet writes exactly one message, reports its byte count, stamps the configured domain and the counter "
+         "after adding this set's records; templates leave the counter unchanged), seq_law (after any session of successful sends the counter is "
+         "start + data records transmitted, mod 2^32 - so wrap-crossing sessions are covered), failed_send_bumps_seq (documented behaviour outside "
+         "the statement). Sessions starting within 500 of 2^32 are run on the real exporter (overlay setter) and every header is parsed independently.",
+    design="4 (C08)",
+    note="export time is checked against the wall-clock second window of the call; failed attempts are outside C08.")
+CHECKS["C09"] = dict(
+    engine="exp",
+    technique="Lean 4 proof (decision-logic theorems on SendSet: size bound, refusal leaves state, sanity check, registration only after transmission) + differential correspondence with invalid sends; two known findings",
+    text="Proved: size_bound, error_leaves_state, data_requires_registered_template, registered_only_after_sent (repair of D6), faithful_or_error "
+         "(a record with an unencodable value cannot be built, hence must be an error) and d12_witness. On the unchanged tree the full statement is "
+         "false in two listed ways: ill-typed values are transmitted altered (D5) and a set id different from the records' template id is "
+         "transmitted (D12); both are reported as KNOWN-FINDING with their failing inputs, any other violation is reported.",
+    design="4 (C09), 5 (D5, D6 fixed, D12)",
+    note="'nothing was written' is exact because the connection is an in-memory net.Conn.")
+
 NOT_YET = {}
 
 
